@@ -143,6 +143,85 @@ prop("C20", "ntcheck",
      level_text="Generated operation sequences against map and slice models, all hash shapes including total collisions.",
      level_note="Pointers are addresses of pinned harness records; the shadow of bucket shapes is used only to classify cases.")
 
+SCHED_NOTE = ("Schedules are owned by the harness: a token-passing scheduler runs exactly one logical thread at a time and switches only at yield points "
+              "(verif hooks at every getNext/dcasNext of the skiplist, at every atomic step of the access barrier, and harness callbacks); a pre-emption inside an "
+              "uninstrumented instruction sequence and weak-memory reorderings are out of reach. 2-5 threads, scripts of <=6 operations.")
+G1 = {"GOMAXPROCS": "1"}
+
+prop("C13", "slcheck",
+     [dict(name="TestC13", quick=2500, thorough=40000, env=G1)],
+     rule="2-4 controlled threads run drawn scripts (1-5 ops) of Insert2 (drawn height 0-4 via a scripted level function), Delete, DeleteNode on node handles shared "
+          "between threads (Go-managed memory) and Lookup over 3-5 keys on a list pre-populated with tall nodes; drawn memory mode (Go heap / guard allocator with a "
+          "destructor that frees; there deletes follow the owner protocol lookup+DeleteNode2+FlushSession-on-success under one token); schedule drawn as PCT priorities "
+          "with 0-4 change points or as a random walk over the yield points. Oracle: porcupine per key on exact call/return stamps (set semantics, node identity for "
+          "DeleteNode and Lookup) including an observation of every key from a scan after quiescence; scan strictly increasing; each node deleted by one caller; "
+          "C14 structural walk; no allocator fault/bad free. Non-trivial: >=2 operations of different threads on one key overlapped and the schedule pre-empted a thread "
+          "inside an operation. Distinct = hash of (scripts, schedule).",
+     technique="generated scripts + generated schedules (PCT / random walk) under a controlled scheduler, porcupine linearizability oracle",
+     design_ref="DESIGN.md §3 C13",
+     level_text="Schedule-as-input exploration of small concurrent scenarios with a linearizability oracle; every failure is a pure function of the seed and shrinks.",
+     level_note=SCHED_NOTE)
+
+prop("C14", "slcheck",
+     [dict(name="TestC14", quick=2000, thorough=30000, env=G1)],
+     rule="C13's concurrent generator (contended inserts/deletes under generated schedules, both memory modes) followed by a sequential phase, with the structural predicate "
+          "run at both quiescent points: per level the unmarked chain head->tail is strictly increasing and acyclic, is a subsequence of the level below, no node above its "
+          "height or above the list level, every live node linked at all levels up to its height; statistics (per-height node counts, soft deletes, memory in use, "
+          "allocs-frees vs allocator live set) equal what the walk measures. The same predicate also runs inside C13, C15, C18 (builder output) and C04 layer A. "
+          "Non-trivial: the concurrent phase contained two overlapping deletes of one key/node. Distinct = hash of (scripts, schedule, sequential phase).",
+     technique="generated scripts + schedules under a controlled scheduler, structural invariant walk vs statistics",
+     design_ref="DESIGN.md §3 C14",
+     level_text="Invariant over the reachable structure checked at generated quiescent points.",
+     level_note=SCHED_NOTE + " Restored stores are walked in C05 only through public statistics (node_count).")
+
+prop("C15", "slcheck",
+     [dict(name="TestC15", quick=2500, thorough=40000, env=G1)],
+     rule="Stable even keys (never touched) interleaved with volatile odd keys; one controlled reader (SeekFirst or Seek(x), Next to the end, drawn refresh interval 0-3, "
+          "optional Pause/Resume with re-seek) and 1-3 controlled mutators inserting/deleting volatile keys, a third of the operations aimed at the reader's current key, "
+          "its predecessor or successor; both memory modes; schedule drawn (PCT / random walk). Oracle: returned sequence never decreases, equal neighbours only with an "
+          "overlapping re-insert; every returned key is stable or possibly present at some moment of the scan (from stamped mutator results); every stable key >= the start "
+          "is returned exactly once; Seek(x) never lands below x; iterator node live in the allocator; C14 walk at the end. Non-trivial: a successful delete hit the reader's "
+          "current key or its predecessor during the scan. Distinct = hash of (setup, scripts, schedule).",
+     technique="generated scripts + schedules under a controlled scheduler, stable/volatile set relations as oracle",
+     design_ref="DESIGN.md §3 C15",
+     level_text="Schedule-as-input exploration with mutators aimed at the cursor; relations stated by the property checked on the stamped history.",
+     level_note=SCHED_NOTE)
+
+prop("C16", "slcheck",
+     [dict(name="TestC16", quick=4000, thorough=60000, env=G1)],
+     rule="2-5 controlled threads with drawn scripts (1-6 ops) of Acquire, Release(any own token), FlushSession(ref_k), including nested holders and flushes while holding; "
+          "every barrier hook and every step of the internal queue is a yield point; schedule drawn (PCT / random walk). Oracle on the totally ordered event log: destructor "
+          "at most once per flush; flush f returned before flush g was called => destructor(f) before destructor(g); accessor whose Acquire returned before f was called => "
+          "destructor(f) after its Release was called; Acquire never returns a session already latched as terminated. Non-trivial: >=1 flush and (an accessor was inside "
+          "Acquire/holding across a flush, or a thread was pre-empted inside an operation). Distinct = hash of (scripts, schedule).",
+     technique="generated scripts + schedules under a controlled scheduler, event-log order relations as oracle",
+     design_ref="DESIGN.md §3 C16",
+     level_text="Schedule-as-input exploration over every atomic step of the barrier.",
+     level_note=SCHED_NOTE)
+
+prop("C17", "slcheck",
+     [dict(name="TestC17", quick=4000, thorough=60000, env=G1)],
+     rule="Same generator as C16; every script ends with all tokens released. Oracle at quiescence (all threads finished): destructor calls == FlushSession calls, "
+          "GetStats freed == allocated-1 and queued == 0; no timer involved. (C04 layer A adds: allocator live set == linked nodes + sentinels at quiescence.) "
+          "Non-trivial: >=2 flushes, both queue-insert and try-lock yield points were hit and a thread was pre-empted inside an operation. Distinct = hash of (scripts, schedule).",
+     technique="generated scripts + schedules under a controlled scheduler, quiescence counters as oracle",
+     design_ref="DESIGN.md §3 C17",
+     level_text="Schedule-as-input exploration; liveness is judged only at true quiescence, which the scheduler knows exactly.",
+     level_note=SCHED_NOTE)
+
+prop("C04", "slcheck",
+     [dict(name="TestC04A", quick=2500, thorough=40000, env=G1)],
+     rule="Layer A (skiplist + access barrier + guard allocator in trap mode, fully controlled): 2-4 threads play writer (Insert2 with drawn heights; delete = lookup + "
+          "DeleteNode2 + FlushSession-on-success under one token; 1-3 contended keys), collector (unlink a chained list of nodes, then flush the list) and reader (iterator "
+          "with refresh interval 0-3, Seek, Pause/Resume); schedule drawn. Oracle: no access to a freed block (page fault mapped to the block and its alloc/free ops), no "
+          "double/unknown free, after every completed operation and at the end every node reachable from head at any level is live, node under an open iterator is live, at "
+          "quiescence live blocks == linked nodes + sentinels, C14 walk. Non-trivial: a block was freed while another thread was inside an operation, or an iterator stood "
+          "on a node marked deleted. Distinct = hash of (roles, schedule).",
+     technique="generated roles + schedules under a controlled scheduler with a guard allocator (page-fault / live-set oracle)",
+     design_ref="DESIGN.md §3 C04",
+     level_text="Schedule-as-input exploration with an allocator that turns every stale access into an attributable fault and every bad free into a record.",
+     level_note=SCHED_NOTE + " Layer A judges the skiplist/barrier mechanism under a correct client protocol; nitro's own use of it is layer B.")
+
 NOT_APPLICABLE = {}
 
 ENGINES = [
